@@ -90,3 +90,111 @@ package runtime
 //@ ensures C05 prefix: forall a uintptr :: a < uintptr(src.len*etSize) ==> mem[result.data + a] == old(mem[src.data + a])
 //@ ensures C05 appended: forall a uintptr :: a < uintptr(num*etSize) ==> mem[result.data + uintptr(src.len*etSize) + a] == old(mem[data + a])
 //@ modifies bytes(src.data + uintptr(src.len*etSize), num*etSize)
+
+// ---------------------------------------------------------------------------
+// utf8.go  (spec functions utf8_*: /verif/specs/utf8.smt2, written from
+// Unicode Table 3-6 / 3-7)
+
+//@ func decoderune
+//@ props C05
+//@ requires k >= 0
+//@ ensures C05 past-end: k >= len(s) ==> r == 0xFFFD && pos == k + 1
+//@ ensures C05 rune: k < len(s) && s[k] >= 0x80 ==> r == utf8_dec_rune(s[k], s[k+1], s[k+2], s[k+3], len(s) - k)
+//@ ensures C05 size: k < len(s) && s[k] >= 0x80 ==> pos == k + utf8_dec_size(s[k], s[k+1], s[k+2], s[k+3], len(s) - k)
+//@ ensures C05 progress: k < len(s) ==> pos > k && pos <= len(s)
+//@ modifies nothing
+
+//@ func encoderune
+//@ props C05
+//@ requires len(p) >= utf8_enc_len(r)
+//@ ensures C05 count: result == utf8_enc_len(r)
+//@ ensures C05 bytes: forall j int :: 0 <= j && j < result ==> p[j] == utf8_enc_byte(r, j)
+//@ modifies bytes(p.data, utf8_enc_len(r))
+
+//@ lemma utf8_roundtrip: C05 forall r rune :: utf8_scalar(r) ==> utf8_dec_rune(utf8_enc_byte(r, 0), utf8_enc_byte(r, 1), utf8_enc_byte(r, 2), utf8_enc_byte(r, 3), utf8_enc_len(r)) == r && utf8_dec_size(utf8_enc_byte(r, 0), utf8_enc_byte(r, 1), utf8_enc_byte(r, 2), utf8_enc_byte(r, 3), utf8_enc_len(r)) == utf8_enc_len(r)
+//@ lemma utf8_invalid_is_fffd: C05 forall r rune :: !utf8_scalar(r) ==> utf8_enc_len(r) == 3 && utf8_enc_byte(r, 0) == 0xEF && utf8_enc_byte(r, 1) == 0xBF && utf8_enc_byte(r, 2) == 0xBD
+
+// ---------------------------------------------------------------------------
+// z_string.go
+
+//@ func StringCat
+//@ props C05
+//@ arith int
+//@ requires a.len >= 0 && b.len >= 0 && a.len < 1<<46 && b.len < 1<<46
+//@ requires valid(a.data, a.len) && valid(b.data, b.len)
+//@ ensures C05 len: result.len == a.len + b.len
+//@ ensures C05 left: forall k uintptr :: k < uintptr(a.len) ==> mem[result.data + k] == old(mem[a.data + k])
+//@ ensures C05 right: forall k uintptr :: k < uintptr(b.len) ==> mem[result.data + uintptr(a.len) + k] == old(mem[b.data + k])
+//@ ensures C05 fresh: fresh(result.data, a.len + b.len)
+//@ modifies nothing
+
+//@ func StringEqual
+//@ props C05
+//@ requires x.len >= 0 && y.len >= 0 && valid(x.data, x.len) && valid(y.data, y.len)
+//@ ensures C05 eq: result <==> (x.len == y.len && forall k int :: 0 <= k && k < x.len ==> x[k] == y[k])
+//@ loop 1 invariant prefix: 0 <= i && i <= x.len && x.len == y.len && forall k int :: 0 <= k && k < i ==> x[k] == y[k]
+//@ loop 1 decreases x.len - i
+//@ modifies nothing
+
+//@ func StringLess
+//@ props C05
+//@ requires x.len >= 0 && y.len >= 0 && valid(x.data, x.len) && valid(y.data, y.len)
+//@ ensures C05 lex: result <==> ((exists j int :: 0 <= j && j < min(x.len, y.len) && x[j] < y[j] && forall k int :: 0 <= k && k < j ==> x[k] == y[k]) || (x.len < y.len && forall k int :: 0 <= k && k < x.len ==> x[k] == y[k]))
+//@ loop 1 invariant prefix: 0 <= i && i <= n && n == min(x.len, y.len) && forall k int :: 0 <= k && k < i ==> x[k] == y[k]
+//@ loop 1 decreases n - i
+//@ modifies nothing
+
+//@ func StringIterNext
+//@ props C05
+//@ requires it != nil && it.pos >= 0
+//@ ensures C05 end: old(it.pos) >= len(it.s) ==> !ok && k == 0 && v == 0 && it.pos == old(it.pos)
+//@ ensures C05 next: old(it.pos) < len(it.s) ==> ok && k == old(it.pos) && v == utf8_dec_rune(it.s[k], it.s[k+1], it.s[k+2], it.s[k+3], len(it.s) - k) && it.pos == k + utf8_dec_size(it.s[k], it.s[k+1], it.s[k+2], it.s[k+3], len(it.s) - k)
+//@ ensures C05 same-string: same(it.s, old(it.s))
+//@ modifies it.pos
+
+//@ func StringFrom
+//@ props C05
+//@ arith int
+//@ requires n >= 0 && n < 1<<46 && valid(data, n)
+//@ ensures C05 len: s.len == n
+//@ ensures C05 bytes: forall k uintptr :: k < uintptr(n) ==> mem[s.data + k] == old(mem[data + k])
+//@ ensures C05 fresh: n > 0 ==> fresh(s.data, n)
+//@ modifies nothing
+
+//@ func StringFromBytes
+//@ props C05
+//@ arith int
+//@ requires b.len >= 0 && b.len < 1<<46 && valid(b.data, b.len)
+//@ ensures C05 len: s.len == b.len
+//@ ensures C05 bytes: forall k uintptr :: k < uintptr(b.len) ==> mem[s.data + k] == old(mem[b.data + k])
+//@ modifies nothing
+
+//@ func StringToBytes
+//@ props C05
+//@ arith int
+//@ requires s.len >= 0 && s.len < 1<<45 && valid(s.data, s.len)
+//@ ensures C05 len: result.len == s.len && result.cap == s.len
+//@ ensures C05 bytes: forall k uintptr :: k < uintptr(s.len) ==> mem[result.data + k] == old(mem[s.data + k])
+//@ ensures C05 fresh: s.len > 0 ==> fresh(result.data, s.len)
+//@ modifies nothing
+
+//@ func StringFromRune
+//@ props C05
+//@ ensures C05 len: s.len == utf8_enc_len(r)
+//@ ensures C05 bytes: forall j int :: 0 <= j && j < s.len ==> s[j] == utf8_enc_byte(r, j)
+//@ ensures C05 fresh: fresh(s.data, 4)
+//@ modifies nothing
+
+//@ func StringFromInt64
+//@ props C05
+//@ let c = ite(r < 0 || r > 0x10FFFF, rune(0xFFFD), rune(r))
+//@ ensures C05 len: result.len == utf8_enc_len(c)
+//@ ensures C05 bytes: forall j int :: 0 <= j && j < result.len ==> result[j] == utf8_enc_byte(c, j)
+//@ modifies nothing
+
+//@ func StringFromUint64
+//@ props C05
+//@ let c = ite(r > 0x10FFFF, rune(0xFFFD), rune(r))
+//@ ensures C05 len: result.len == utf8_enc_len(c)
+//@ ensures C05 bytes: forall j int :: 0 <= j && j < result.len ==> result[j] == utf8_enc_byte(c, j)
+//@ modifies nothing
